@@ -79,6 +79,7 @@ def ravel (shape idx : List Nat) : Nat := ravelAux shape idx 0
 
 /-- flat index into an operand of shape `s` for flat index `i` of the broadcast shape `out` -/
 def bidx (out s : List Nat) (i : Nat) : Nat :=
+  if s == out then i else     -- an operand that already has the broadcast shape is read in place
   let mi := (unravel out i).drop (out.length - s.length)
   ravel s (List.zipWith (fun d k => if d == 1 then 0 else k) s mi)
 
